@@ -73,6 +73,9 @@ var provTemplates = []struct {
 	{"forin-elem-neg", "for t in [%s] { probe(-t) }", true},
 	// the address of a variable the value was bound to, and a field store into a bound struct value
 	{"param-addr", "func(p) {\nq = &p\n*q = 5\nreturn p\n}(%s)", false}, {"var-addr", "var t = %s\nq = &t\n*q = 5\nt", false}, {"paren-addr", "var t = %s\nq = &(t)\n*q = 5\nt", false}, {"param-paren-addr", "func(p) {\nq = &((p))\n*q = 5\nreturn p\n}(%s)", false},
+	// ... and so do `??` and `?:` around the variable: the address of such an expression is the address of a copy of its value
+	{"coalesce-addr", "var t = %s\nq = &(t ?? 0)\n*q = 5\nt", false}, {"ternary-addr", "var t = %s\nq = &(true ? t : 0)\n*q = 5\nt", false},
+	{"param-coalesce-addr", "func(p) {\nq = &(p ?? 0)\n*q = 5\nreturn p\n}(%s)", false},
 	{"bound-struct-field-store", "x = %s\nx.A = 2\nx.A", false},
 	// the value bound to a variable by every kind of binding, then used as a bare identifier operand
 	{"param-add", "func(p) { return p + p }(%s)", true}, {"param-mul", "func(p) { return p * 2 }(%s)", true}, {"param-sub", "func(p) { return p - 1 }(%s)", true},
